@@ -128,34 +128,44 @@ func (br *xmpReader) readAttrValue(tag *Tag) (buf []byte, err error) {
 			return
 		}
 
-		if buf[0] == '=' && (buf[1] == '"' || buf[1] == '\'') {
-			delim := buf[1]
-			// the end of the tag needs up to two bytes after the closing quote: when they
-			// are beyond a full look-ahead window the window grows first
-			if b := bytes.IndexByte(buf[2:], delim); b >= 0 && (b+4 < len(buf) || len(buf) < s) {
-				i := b + 2
-				d := i + 1
-				// white space between the last attribute and the end of the tag
-				e := d
-				for e < len(buf) && isWhiteSpace(buf[e]) {
-					e++
+		// '=' and the opening quote, each of which may follow white space
+		q := 0
+		for q < len(buf) && isWhiteSpace(buf[q]) {
+			q++
+		}
+		if q < len(buf) && buf[q] == '=' {
+			for q++; q < len(buf) && isWhiteSpace(buf[q]); q++ {
+			}
+			if q < len(buf) && (buf[q] == '"' || buf[q] == '\'') {
+				delim := buf[q]
+				q++
+				// the end of the tag needs up to two bytes after the closing quote: when they
+				// are beyond a full look-ahead window the window grows first
+				if b := bytes.IndexByte(buf[q:], delim); b >= 0 && (q+b+2 < len(buf) || len(buf) < s) {
+					i := q + b
+					d := i + 1
+					// white space between the last attribute and the end of the tag
+					e := d
+					for e < len(buf) && isWhiteSpace(buf[e]) {
+						e++
+					}
+					if e+1 >= len(buf) && len(buf) == s {
+						s += maxTagValueSize
+						continue
+					}
+					if e < len(buf) && buf[e] == '>' {
+						d = e + 1
+						br.a = false
+					} else if e+1 < len(buf) && buf[e] == '/' && buf[e+1] == '>' {
+						d = e + 2
+						tag.t = soloTag
+						br.a = false
+					}
+					if _, err = br.Discard(d); err != nil {
+						err = errors.Wrap(err, "Attr Value (discard)")
+					}
+					return buf[q:i], err
 				}
-				if e+1 >= len(buf) && len(buf) == s {
-					s += maxTagValueSize
-					continue
-				}
-				if e < len(buf) && buf[e] == '>' {
-					d = e + 1
-					br.a = false
-				} else if e+1 < len(buf) && buf[e] == '/' && buf[e+1] == '>' {
-					d = e + 2
-					tag.t = soloTag
-					br.a = false
-				}
-				if _, err = br.Discard(d); err != nil {
-					err = errors.Wrap(err, "Attr Value (discard)")
-				}
-				return buf[2:i], err
 			}
 		}
 		s += maxTagValueSize
